@@ -19,7 +19,7 @@ SO = {"threads": 1}
 
 def gen_cases(tier, seed):
     cases = []
-    corpus = [([1, 2, 4], 7, 1), ([1, 2, 4], 100, 1), ([1], 6, 1), ([3, 6, 1, 2], 3, 2), ([5], 5, 1), ([2, 3], 5, 1), ([1, 2, 3, 4], 10, 1), ([6], 3, 2), ([7, 7], 14, 1), ([0, 3], 3, 1)]
+    corpus = [([5, 3], 10, 1), ([3], 6, 1), ([2, 4, 6], 12, 1), ([1, 2, 4], 7, 1), ([1, 2, 4], 100, 1), ([1], 6, 1), ([3, 6, 1, 2], 3, 2), ([5], 5, 1), ([2, 3], 5, 1), ([1, 2, 3, 4], 10, 1), ([6], 3, 2), ([7, 7], 14, 1), ([0, 3], 3, 1)]
     for nums, tot, mult in corpus:
         for wt in ("int", "float"):
             cases.append({"kind": "mgs", "numbers": nums, "total": tot, "mult": mult, "wt": wt, "lb": 1, "parts": None, "rcv": True})
@@ -43,6 +43,17 @@ def gen_cases(tier, seed):
             nums.append(total - nums[0] if total - nums[0] > 0 else nums[0])
         if rng.random() < 0.2 and nums:
             nums.append(nums[0])
+        if rng.random() < 0.25 and mult == 1:
+            # a number that is its own complement (total/2), realisable by a sub-multiset where possible
+            half = total / 2
+            if wt == "float" or float(half).is_integer():
+                for r in range(1, k + 1):
+                    for comb in __import__("itertools").combinations(range(k), r):
+                        if sum(gset[i] for i in comb) == half:
+                            nums.append(int(half) if wt == "int" else half); break
+                    else:
+                        continue
+                    break
         if not nums:
             nums = [gset[0]]
         parts = None
@@ -55,6 +66,8 @@ def gen_cases(tier, seed):
         rng = gen.rng_for("C15s", seed, i)
         nu = rng.randint(1, 7); U = list(range(nu)) if rng.random() < 0.7 else [f"e{j}" for j in range(nu)]
         subsets = [rng.sample(U, rng.randint(1, nu)) for _ in range(rng.randint(1, 7))]
+        if rng.random() < 0.35:
+            d = rng.choice(subsets); subsets.insert(rng.randrange(len(subsets) + 1), list(d) if rng.random() < 0.5 else list(reversed(d)))   # the same subset offered twice
         missing = set(U) - set(x for s in subsets for x in s)
         if missing:
             subsets.append(list(missing))
